@@ -272,6 +272,11 @@ class Repo(object):
 
     def find_method(self, mod, cnode, name):
         for m, c in self.mro(mod, cnode):
+            vm = getattr(c, "_vmethods", None)      # checker-side stand-in classes
+            if vm is not None:
+                if name in vm:
+                    return m, vm[name]
+                continue
             q = c._qualname + "." + name
             if q in m.funcs:
                 return m, m.funcs[q]
